@@ -54,9 +54,14 @@ Definition is_default (v : val) : bool :=
   | _ => false
   end.
 
-Definition update_val (vs : varstore) (k : str) (v : val) : varstore :=
-  if is_default v then mkVars (alist_remove k (vs_vars vs)) (vs_dims vs) (vs_types vs)
-  else mkVars (alist_set k v (vs_vars vs)) (vs_dims vs) (vs_types vs).
+(* a default value frees the slot; only a new entry needs a free slot *)
+Definition update_val (vs : varstore) (k : str) (v : val) : res varstore :=
+  if is_default v then Ok (mkVars (alist_remove k (vs_vars vs)) (vs_dims vs) (vs_types vs))
+  else match alist_get k (vs_vars vs) with
+       | Some _ => Ok (mkVars (alist_set k v (vs_vars vs)) (vs_dims vs) (vs_types vs))
+       | None => if (65535 <? lenN (vs_vars vs))%N then err E_OutOfMemory
+                 else Ok (mkVars (alist_set k v (vs_vars vs)) (vs_dims vs) (vs_types vs))
+       end.
 
 (* conversion of a value to the type of the receiving variable *)
 Definition convert_to (t : vtype) (v : val) : res val :=
@@ -71,9 +76,8 @@ Definition convert_to (t : vtype) (v : val) : res val :=
   end.
 
 Definition var_store (vs : varstore) (k : str) (v : val) : res varstore :=
-  if (65535 <? lenN (vs_vars vs))%N then err E_OutOfMemory
-  else match key_type (vs_types vs) k with
-       | Some t => do v' <- convert_to t v; Ok (update_val vs k v')
+  match key_type (vs_types vs) k with
+       | Some t => do v' <- convert_to t v; update_val vs k v'
        | None => match k with
                  | [] => err E_Internal
                  | _ => Panic      (* index computed from a non-letter: subtraction overflow / out of bounds *)
